@@ -453,24 +453,24 @@ Section Ops.
             Some (rc_concat_base + rc_concat_per_arg * count bs + rc_concat_per_byte * total_len bs)
       end.
 
+  Definition reserved_prefix (opc : bytes) : bool :=
+    match opc with x :: y :: _ => (x =? 255) && (y =? 255) | _ => false end.
+
   Definition ref_unknown (opc : bytes) (args : list sexp) : res (N * sexp) :=
     match rev opc with
     | [] => Err Reserved
     | lastb :: rprefix =>
         let prefix := rev rprefix in
-        match opc with
-        | 255 :: 255 :: _ => Err Reserved
-        | _ =>
-            if ad_unknown_u32_cap ad && (4 <? length prefix)%nat then Err Invalid
-            else
-              match unknown_base_cost (lastb / 64) args with
-              | None => fail
-              | Some base =>
-                  let cost := base * (uint_of_bytes prefix + 1) in
-                  if ad_unknown_u32_cap ad && (4294967296 <=? cost) then Err Invalid
-                  else Ok (cost, nil_s)
-              end
-        end
+        if reserved_prefix opc then Err Reserved
+        else if ad_unknown_u32_cap ad && (4 <? length prefix)%nat then Err Invalid
+        else
+          match unknown_base_cost ((lastb / 64) mod 4) args with
+          | None => fail
+          | Some base =>
+              let cost := base * (uint_of_bytes prefix + 1) in
+              if ad_unknown_u32_cap ad && (4294967296 <=? cost) then Err Invalid
+              else Ok (cost, nil_s)
+          end
     end.
 
   (* does a literal operand list with a non-nil terminator make this operator fail?
@@ -484,14 +484,31 @@ Section Ops.
      extension 1, where opcode 62 is keccak256 (outside, with default flags, 62..65 are unknown
      operators as they always were) *)
   Definition non_classic (kec : bool) (opc : bytes) : bool :=
-    match opc with
-    | [b] => (b =? 29) || (b =? 30) || ((48 <=? b) && (b <=? 61)) || (kec && (b =? 62))
-    | [19; 214; 31; 0] => true          (* secp256k1_verify 0x13d61f00 *)
-    | [28; 58; 143; 0] => true          (* secp256r1_verify 0x1c3a8f00 *)
-    | _ => false
+    bytes_eqb opc [19; 214; 31; 0]          (* secp256k1_verify 0x13d61f00 *)
+    || bytes_eqb opc [28; 58; 143; 0]       (* secp256r1_verify 0x1c3a8f00 *)
+    || match opc with
+       | [b] => (b =? 29) || (b =? 30) || ((48 <=? b) && (b <=? 61)) || (kec && (b =? 62))
+       | _ => false
+       end.
+
+  (* every operator except quote, apply and softfork (the evaluator's own): the classic
+     one-byte opcodes and their closed forms; everything else is an unknown operator *)
+  Definition ref_raise (_ : list sexp) : res (N * sexp) := Err Raise.
+
+  Definition ref_table : list (N * (list sexp -> res (N * sexp))) :=
+    [ (3, ref_if); (4, ref_cons); (5, ref_first); (6, ref_rest); (7, ref_listp); (8, ref_raise);
+      (9, ref_eq); (10, ref_gr_bytes); (11, ref_sha256); (12, ref_substr); (13, ref_strlen);
+      (14, ref_concat); (16, ref_add); (17, ref_sub); (18, ref_mul); (19, ref_div);
+      (20, ref_divmod); (21, ref_gr); (22, ref_ash); (23, ref_lsh);
+      (24, ref_logop Z.land (-1)%Z); (25, ref_logop Z.lor 0%Z); (26, ref_logop Z.lxor 0%Z);
+      (27, ref_lognot); (32, ref_not); (33, ref_any); (34, ref_all) ].
+
+  Fixpoint lookup {A} (k : N) (t : list (N * A)) : option A :=
+    match t with
+    | [] => None
+    | (k', v) :: r => if k =? k' then Some v else lookup k r
     end.
 
-  (* every operator except quote, apply and softfork (the evaluator's own) *)
   Definition ref_op (kec : bool) (opc : bytes) (args : list sexp) (ending_atom : bytes) : res (N * sexp) :=
     if non_classic kec opc then Err Unsupported
     else
@@ -499,35 +516,10 @@ Section Ops.
         if negb (ad_literal_operands_any_terminator ad) && strict_reader op
            && negb (match ending_atom with [] => true | _ => false end)
         then fail else f args in
+      let unknown := known (if (last opc 0 / 64) mod 4 =? 0 then 3 else 255) (ref_unknown opc) in
       match opc with
-      | [3] => known 3 ref_if
-      | [4] => known 4 ref_cons
-      | [5] => known 5 ref_first
-      | [6] => known 6 ref_rest
-      | [7] => known 7 ref_listp
-      | [8] => Err Raise
-      | [9] => known 9 ref_eq
-      | [10] => known 10 ref_gr_bytes
-      | [11] => known 11 ref_sha256
-      | [12] => known 12 ref_substr
-      | [13] => known 13 ref_strlen
-      | [14] => known 14 ref_concat
-      | [16] => known 16 ref_add
-      | [17] => known 17 ref_sub
-      | [18] => known 18 ref_mul
-      | [19] => known 19 ref_div
-      | [20] => known 20 ref_divmod
-      | [21] => known 21 ref_gr
-      | [22] => known 22 ref_ash
-      | [23] => known 23 ref_lsh
-      | [24] => known 24 (ref_logop Z.land (-1)%Z)
-      | [25] => known 25 (ref_logop Z.lor 0%Z)
-      | [26] => known 26 (ref_logop Z.lxor 0%Z)
-      | [27] => known 27 ref_lognot
-      | [32] => known 32 ref_not
-      | [33] => known 33 ref_any
-      | [34] => known 34 ref_all
-      | _ => known (if last opc 0 / 64 =? 0 then 3 else 255) (ref_unknown opc)
+      | [b] => match lookup b ref_table with Some f => known b f | None => unknown end
+      | _ => unknown
       end.
 
   (* -------------------------------------------------------------------------------------- *)
